@@ -124,6 +124,8 @@ func (o *op) desc() string {
 		fmt.Fprintf(&sb, "(code=%d,how=%d%s)", o.Code, o.How, formSuffix(o.Ind, o.ViaImp))
 	case "obs":
 		fmt.Fprintf(&sb, "(%d%s)", o.K, formSuffix(o.Ind, o.ViaImp))
+	case "tlk":
+		fmt.Fprintf(&sb, "(table[%d])", int32(tlkOffsets[o.K]))
 	case "sinc":
 		fmt.Fprintf(&sb, "(%s)", shmNames[o.Which])
 	case "strap":
@@ -149,6 +151,8 @@ func (o *op) desc() string {
 					fmt.Fprintf(&sb, ":%s%s@%d", hostPanics[l.HK].Name, formSuffix(l.Ind, l.ViaImp), l.Target)
 				case "obs":
 					fmt.Fprintf(&sb, ":%d%s@%d", l.HK, formSuffix(l.Ind, l.ViaImp), l.Target)
+				case "tlk":
+					fmt.Fprintf(&sb, ":table[%d]@%d", int32(tlkOffsets[l.TrapK]), l.Target)
 				case "hp":
 					fmt.Fprintf(&sb, ":%s", hostPanics[l.HK].Name)
 				case "gexit":
@@ -305,6 +309,31 @@ func (m *model) doRec(o *op, depth int, in *minst, k int, d uint32, a uint64, ad
 	return recModel(k, d, a, in.small), nil
 }
 
+// tlkOffsets: table offsets the host function looks up: the state slot, the
+// always-null slot, the slot of another function type, offset == size, size+1, max.
+var tlkOffsets = []uint32{0, 1, 2, tableSize, tableSize + 1, 0xffffffff}
+
+// doTlk: guest -> host -> experimental/table.LookupFunction(table 0, off) -> guest.
+func (m *model) doTlk(o *op, depth int, in *minst, k int, addr uint32, val uint64) (uint64, *merr) {
+	in.g0++
+	in.cells[addr] = val
+	m.hostCall(o, in, "tlookup", false)
+	off := tlkOffsets[k]
+	class := ""
+	switch {
+	case off >= tableSize, off == 1, off == 0 && in.tslot == 0:
+		class = "trap:invalid table access"
+	case off == 2, off == 0 && in.tslot == 3:
+		class = "trap:indirect call type mismatch"
+	}
+	if class != "" {
+		o.Fails = append(o.Fails, failRec{fmt.Sprintf("table-lookup:offset-%d:%s", int32(off), class[5:]), depth + 1})
+		return 0, &merr{class}
+	}
+	in.g0 += postTlk
+	return uint64(11 * in.tslot), nil
+}
+
 func (m *model) doObs(o *op, in *minst, tag uint32, ind bool) uint64 {
 	in.g0++
 	m.hostCall(o, in, "observe", ind)
@@ -414,6 +443,9 @@ func (m *model) simHop(o *op, caller *minst, level int) (uint64, *merr) {
 			} else {
 				e = m.doGexit(o, level+1, t, l.Code, l.How, l.Addr, l.Val, l.Ind)
 			}
+		case "tlk":
+			res, e = m.doTlk(o, level+1, t, l.TrapK, l.Addr, l.Val)
+			hasRes = e == nil
 		case "obs":
 			if l.ViaImp {
 				e = m.vp(t, func(b *minst) *merr { res = m.doObs(o, b, uint32(l.HK), l.Ind); return nil })
@@ -552,6 +584,12 @@ func (m *model) apply(o *op) {
 			} else {
 				e = m.doGexit(o, 0, in, o.Code, o.How, o.Addr, o.Val, o.Ind)
 			}
+		case "tlk":
+			var r uint64
+			r, e = m.doTlk(o, 0, in, o.K, o.Addr, o.Val)
+			if e == nil {
+				o.WantRes = []uint64{r}
+			}
 		case "obs":
 			var r uint64
 			if o.ViaImp {
@@ -663,8 +701,10 @@ func (g *gen) leaf(open []int, start bool) *leafSpec {
 	l.Target = g.pick(open)
 	l.Addr, l.Val = g.addrVal()
 	switch w := r.Intn(100); {
-	case w < 34:
+	case w < 30:
 		l.Kind, l.TrapK = "trap", g.trapKind()
+	case w < 34:
+		l.Kind, l.TrapK = "tlk", r.Intn(len(tlkOffsets))
 	case w < 44:
 		l.Kind, l.HK = "hp", r.Intn(len(hostPanics))
 	case w < 54:
@@ -793,8 +833,10 @@ func (g *gen) next() *op {
 		o.Kind, o.K = "tset", r.Intn(4)
 	case w < 26:
 		o.Kind = "tcall"
-	case w < 40:
+	case w < 37:
 		o.Kind, o.K = "trap", g.trapKind()
+	case w < 40:
+		o.Kind, o.K = "tlk", r.Intn(len(tlkOffsets))
 	case w < 46:
 		o.Kind, o.K, o.D, o.A = "rec", r.Intn(4), g.recDepth(), r.I64()
 	case w < 50:
